@@ -13,7 +13,7 @@ RULE = ('(a) direct streams: the real MomentumSignal / SMASignal / VolatilitySig
         'compared with the definition over the harness\'s own record of that asset\'s stream (so cross-talk between '
         'lookbacks or assets shows up as a wrong value); (b) full sessions with signal-driven alpha models over static '
         'and dynamic universes (entries before / inside / after the session, several assets entering on the same day, '
-        'late-starting data): exactly one observation per tracked asset per market close, none at the open, equal to '
+        'late-starting data; in 30% the signals are built on their own static universe of all symbols, wider than the traded one): exactly one observation per tracked asset per market close, none at the open, equal to '
         'that day\'s close from the CSV, first observation at the first close at or after universe entry, final values '
         'equal the definitions. Non-trivial: a stream longer than its largest lookback (direct) / a session with a late '
         'entrant or >= 20 updates; distinct = case signature.')
@@ -109,7 +109,8 @@ def run_shard(spec, acc):
                             'feed_head': case['feed'][:6]})
         else:
             cfg = sesswl.gen_cfg(rng, alpha_kinds=ALPHAS, universe_kinds=('static', 'dynamic', 'dynamic'),
-                                 max_days=60 if spec['tier'] == 'quick' else 200, full_data=False, n_assets=rng.randint(2, 6))
+                                 max_days=60 if spec['tier'] == 'quick' else 200, full_data=False, n_assets=rng.randint(2, 6),
+                                 signal_universes=True)
             if cfg['universe']['kind'] == 'dynamic' and rng.random() < 0.4:
                 # the universe object already served an earlier session: a late entrant must still start empty
                 world = sesswl.make_world(cfg)
